@@ -38,7 +38,7 @@ def prepare_crate(unit):
 
 def run_kani(ctx, unit, harness=(), flags=(), rustflags=None, jobs=16, harness_timeout='10m',
              wall_timeout=3600, tag=None, features=None, no_default_features=False,
-             allow_failed=None, bounded_note=None, key_prefix=None, playback=True, search=None, ignore_nan_checks=True):
+             allow_failed=None, bounded_note=None, key_prefix=None, playback=True, search=None, ignore_nan_checks=True, soft_timeout=False):
     """Run harnesses (substring filters) of kani/<unit>. Returns parsed JSON (or None)."""
     crate, target = prepare_crate(unit)
     tag = tag or 'default'
@@ -129,6 +129,12 @@ def run_kani(ctx, unit, harness=(), flags=(), rustflags=None, jobs=16, harness_t
             ctx.undecide('kani %s: unwinding bound too small in %s (bound exceeded, undecided)' % (unit, hid))
             continue
         only_ignored = ignore_nan_checks and any(c.get('status') in ('Failure', 'Failed', 'FAILURE') for c in checks) and not failed
+        if r.get('status') != 'Success' and not failed and not only_ignored and soft_timeout:
+            # deep-tier shape that CBMC does not finish: reported as NOT COVERED, never as proved, exit unaffected
+            ctx.obligations -= 1
+            ctx.bounded.append('NOT COVERED (solver did not finish within %s): %s' % (harness_timeout, hid))
+            per[-1]['not_covered'] = True
+            continue
         if r.get('status') != 'Success' and not failed and not only_ignored:
             ctx.undecide('kani %s: harness %s did not complete (status %s: timeout / solver limit)' % (unit, hid, r.get('status')))
             continue
